@@ -201,6 +201,20 @@ CHECKS["C06"] = dict(
     technique="Coq proof (premises discharged on facts regenerated from the source; mixed-radix index theorem for ndindex by induction over the shape) + vm_compute correspondence of whole ASCII bodies",
     design="7/C06")
 
+CHECKS["C13"] = dict(
+    text="PARTIAL. Machine-checked proof (Coq): request scripts whose steps read the shared dataset and write only request-owned state "
+         "cannot influence one another - for every number of requests, every script length and every interleaving the final (and every "
+         "intermediate) state of a request is the one it computes alone; a history of requests leaves the dataset unchanged and answers "
+         "each request as a fresh server would. That pydap's handler has this shape is tied by structural facts re-extracted from the "
+         "source on every run (parse copies first, no store into self.dataset, no module-level mutable state on the request path, "
+         "__copy__ clones) and by a dynamic check: request histories against one application object and 2-3 requests under a "
+         "deterministic scheduler switching threads at pydap call / line events, responses compared byte for byte with sequential "
+         "answers, deep snapshots of the served dataset before and after.",
+    note=TB + "The shape premise is not proved of the Python code (facts are syntactic, the dynamic check samples schedules). True "
+              "parallelism, memory visibility, the GIL and C-level races inside numpy are runtime behaviour the model cannot exhibit.",
+    technique="Coq proof (non-interference of read-only-shared scripts by induction over schedules) on premises regenerated from the source + deterministic thread-schedule exploration and request histories on the implementation",
+    design="7/C13", level="proof")
+
 NOT_YET = {
 }
 
